@@ -134,31 +134,144 @@ Proof.
 Qed.
 
 
+(* ---- offsetLengthToStartEnd ---------------------------------------------- *)
+
+Lemma olse_spec off len : off <= max_u64 -> len <= max_u64 ->
+  offset_length_to_start_end off len =
+  if len =? 0 then None
+  else if len =? max_u64 then Some (off, max_u64)
+  else if off + len <=? max_u64 then Some (off, off + len) else None.
+Proof.
+  intros H1 H2. unfold offset_length_to_start_end.
+  destruct (len =? 0); auto. destruct (len =? max_u64); auto.
+  destruct (max_u64 - off <? len) eqn:E1; destruct (off + len <=? max_u64) eqn:E2; auto; lia.
+Qed.
+
+Lemma olse_range off len s e : off <= max_u64 -> len <= max_u64 ->
+  offset_length_to_start_end off len = Some (s, e) ->
+  s = off /\ s <= e /\ e <= max_u64 /\ (s < e \/ (off = max_u64 /\ len = max_u64)).
+Proof.
+  intros H1 H2. unfold offset_length_to_start_end.
+  destruct (len =? 0) eqn:E0; [discriminate|].
+  destruct (len =? max_u64) eqn:E1.
+  - intros [= <- <-]. lia.
+  - destruct (max_u64 - off <? len) eqn:E2; [discriminate|]. intros [= <- <-]. lia.
+Qed.
+
+Lemma olse_nonempty off len s e : off < max_u64 -> len <= max_u64 ->
+  offset_length_to_start_end off len = Some (s, e) -> s < e.
+Proof.
+  intros H1 H2 H. apply olse_range in H; lia.
+Qed.
+
+(* The unrestricted statement is false: offset = length = 2^64-1 ("from the
+   last offset to end of file") is accepted and yields the empty range. *)
+Lemma olse_nonempty_refuted :
+  exists off len s e, off <= max_u64 /\ len <= max_u64 /\
+    offset_length_to_start_end off len = Some (s, e) /\ ~ s < e.
+Proof.
+  exists max_u64, max_u64, max_u64, max_u64. vm_compute. repeat split; congruence.
+Qed.
+
+Lemma olse_valid off len :
+  off <= max_u64 -> len <= max_u64 -> ~ (off = max_u64 /\ len = max_u64) ->
+  offset_length_to_start_end off len = None \/
+  exists s e, offset_length_to_start_end off len = Some (s, e) /\ s < e /\ e <= max_u64.
+Proof.
+  intros H1 H2 H3. destruct (offset_length_to_start_end off len) as [[s e]|] eqn:E; auto.
+  right. exists s, e. apply olse_range in E; auto. repeat split; auto; lia.
+Qed.
+
+Definition base_valid (o : op) : Prop :=
+  match o with
+  | OLock _ _ s e | OUnlock _ s e | OTest _ _ s e | ORawSet _ _ s e => s < e
+  | _ => False
+  end.
+
+
+
 (* ---- one step ------------------------------------------------------------- *)
 
 Lemma ty_of_locked ex : tn (ltyp (mkLock 0 0 0 (ty_of ex))) <> 0.
 Proof. destruct ex; cbn; lia. Qed.
 
-Lemma step_wf l o : wf l = true -> valid_op o -> wf (fst (step l o)) = true.
+Lemma step_base_wf l o : wf l = true -> base_valid o -> wf (fst (step_base l o)) = true.
 Proof.
-  intros Hwf Hv. destruct o as [ow ex s e|ow s e|ow ex s e|ow t s e];
-  unfold valid_op in Hv; cbn in Hv; cbn [step].
+  intros Hwf Hv. destruct o as [ow ex s e|ow s e|ow ex s e|ow t s e| | | |];
+  cbn in Hv; try contradiction; cbn [step_base].
   - destruct (test l _); cbn [fst]; auto. apply set_wf; auto.
   - cbn [fst]. apply set_wf; auto.
   - destruct (test l _); auto.
   - cbn [fst]. apply set_wf; auto.
 Qed.
 
-Lemma step_excl l o :
-  wf l = true -> valid_op o -> is_raw o = false ->
-  excl_bytes l -> excl_bytes (fst (step l o)).
+Lemma fst_let (p : list lock * out) (f : out -> out) :
+  fst (let '(l', x) := p in (l', f x)) = fst p.
+Proof. now destruct p. Qed.
+
+Lemma snd_let (p : list lock * out) (f : out -> out) :
+  snd (let '(l', x) := p in (l', f x)) = f (snd p).
+Proof. now destruct p. Qed.
+
+(* How a step through OpenedFile reduces to a step of the table. *)
+Inductive via_base (l : list lock) (o : op) : Prop :=
+| VB_inval : step l o = (l, Inval) -> via_base l o
+| VB_base (b : op) (f : out -> out) :
+    base_valid b -> is_raw b = false ->
+    fst (step l o) = fst (step_base l b) -> snd (step l o) = f (snd (step_base l b)) ->
+    via_base l o.
+
+Lemma step_via_base l o : valid_op o -> is_raw o = false -> via_base l o.
 Proof.
-  intros Hwf Hv Hr Hex. destruct o as [ow ex s e|ow s e|ow ex s e|ow t s e];
-  unfold valid_op in Hv; cbn in Hv; cbn [step]; try discriminate.
+  intros Hv Hr. destruct o as [ow ex s e|ow s e|ow ex s e|ow t s e|ow ex off len|ow off len|ow ex off len|ow];
+  cbn in Hv; try discriminate.
+  - apply (VB_base l _ (OLock ow ex s e) (fun x => x)); auto.
+  - apply (VB_base l _ (OUnlock ow s e) (fun x => x)); auto.
+  - apply (VB_base l _ (OTest ow ex s e) (fun x => x)); auto.
+  - destruct Hv as (H1 & H2 & H3).
+    destruct (olse_valid off len H1 H2 H3) as [E|(s & e & E & Hlt & _)].
+    + apply VB_inval. cbn [step]. now rewrite E.
+    + apply (VB_base l _ (OLock ow ex s e) nfs_out); auto; cbn [step]; rewrite E;
+      [apply fst_let|apply snd_let].
+  - destruct Hv as (H1 & H2 & H3).
+    destruct (olse_valid off len H1 H2 H3) as [E|(s & e & E & Hlt & _)].
+    + apply VB_inval. cbn [step]. now rewrite E.
+    + apply (VB_base l _ (OUnlock ow s e) (fun x => x)); auto; cbn [step]; now rewrite E.
+  - destruct Hv as (H1 & H2 & H3).
+    destruct (olse_valid off len H1 H2 H3) as [E|(s & e & E & Hlt & _)].
+    + apply VB_inval. cbn [step]. now rewrite E.
+    + apply (VB_base l _ (OTest ow ex s e) nfs_out); auto; cbn [step]; rewrite E;
+      [apply fst_let|apply snd_let].
+  - apply (VB_base l _ (OUnlock ow 0 max_u64) (fun x => x)); auto. cbn. unfold max_u64. lia.
+Qed.
+
+Lemma step_wf l o : wf l = true -> valid_op o -> wf (fst (step l o)) = true.
+Proof.
+  intros Hwf Hv. destruct (is_raw o) eqn:Hr.
+  - destruct o; try discriminate. apply (step_base_wf l (ORawSet owner t s e)); auto.
+  - destruct (step_via_base l o Hv Hr) as [E|b f Hb _ E _]; [now rewrite E|].
+    rewrite E. now apply step_base_wf.
+Qed.
+
+Lemma step_base_excl l o :
+  wf l = true -> base_valid o -> is_raw o = false ->
+  excl_bytes l -> excl_bytes (fst (step_base l o)).
+Proof.
+  intros Hwf Hv Hr Hex. destruct o as [ow ex s e|ow s e|ow ex s e|ow t s e| | | |];
+  cbn in Hv; try contradiction; cbn [step_base]; try discriminate.
   - destruct (test l _) eqn:Et; cbn [fst]; auto. apply set_excl; auto.
     intros _ c Hc. eapply test_none; eauto. now apply wf_sorted.
   - cbn [fst]. apply set_excl; auto. cbn. lia.
   - destruct (test l _); auto.
+Qed.
+
+Lemma step_excl l o :
+  wf l = true -> valid_op o -> is_raw o = false ->
+  excl_bytes l -> excl_bytes (fst (step l o)).
+Proof.
+  intros Hwf Hv Hr Hex.
+  destruct (step_via_base l o Hv Hr) as [E|b f Hb Hrb E _]; [now rewrite E|].
+  rewrite E. now apply step_base_excl.
 Qed.
 
 Lemma run_cons l o ops :
@@ -223,11 +336,11 @@ Proof.
   rewrite set_wf by auto. reflexivity.
 Qed.
 
-Lemma step_p l o : wf l = true -> valid_op o ->
-  p_step l (fst (step l o)) o (snd (step l o)) = ""%string.
+Lemma step_base_p l o : wf l = true -> base_valid o ->
+  p_base l (fst (step_base l o)) o (snd (step_base l o)) = ""%string.
 Proof.
-  intros Hwf Hv. destruct o as [ow ex s e|ow s e|ow ex s e|ow t s e];
-  unfold valid_op in Hv; cbn in Hv; cbn [step p_step].
+  intros Hwf Hv. destruct o as [ow ex s e|ow s e|ow ex s e|ow t s e| | | |];
+  cbn in Hv; try contradiction; cbn [step_base p_base].
   - destruct (test l _) as [c|] eqn:Et; cbn [fst snd].
     + apply test_some in Et as [Hin Hc]. rewrite Hc.
       assert (existsb (lock_eqb c) l = true) as ->.
@@ -256,6 +369,66 @@ Proof.
   - cbn [fst snd]. apply p_set_ok; auto.
 Qed.
 
+Lemma to_denied_eqb c : out_eqb (to_denied c) (to_denied c) = true.
+Proof. unfold to_denied, out_eqb. rewrite !N.eqb_refl, Bool.eqb_reflx. reflexivity. Qed.
+
+(* The two requests that can be denied, through OpenedFile. *)
+Lemma p_nfs_lock_test l off len s e ow ex (mk : N -> N -> op) :
+  wf l = true -> offset_length_to_start_end off len = Some (s, e) -> s < e ->
+  (mk = OLock ow ex \/ mk = OTest ow ex) ->
+  p_nfs l (fst (step_base l (mk s e))) off len mk (nfs_out (snd (step_base l (mk s e)))) = ""%string.
+Proof.
+  intros Hwf E Hlt Hmk. unfold p_nfs. rewrite E.
+  assert ((e <=? s) = false) as -> by lia.
+  pose proof (step_base_p l (mk s e) Hwf) as Hb.
+  destruct Hmk as [-> | ->]; specialize (Hb Hlt); cbn [step_base] in *;
+  destruct (test l _) as [c|] eqn:Et; cbn [fst snd nfs_out] in *.
+  - unfold to_denied at 1. unfold unchanged. rewrite list_eqb_refl. cbn [negb].
+    apply test_some in Et as [Hin Hc].
+    assert (existsb (fun c0 => conflicts c0 (mkLock s e ow (ty_of ex)) &&
+              out_eqb (to_denied c0) (to_denied c)) l = true) as Hex.
+    { apply existsb_exists. exists c. rewrite Hc, to_denied_eqb. auto. }
+    rewrite Hex. reflexivity.
+  - rewrite set_no_panic in * by auto. cbn [nfs_out]. exact Hb.
+  - unfold to_denied at 1. unfold unchanged. rewrite list_eqb_refl. cbn [negb].
+    apply test_some in Et as [Hin Hc].
+    assert (existsb (fun c0 => conflicts c0 (mkLock s e ow (ty_of ex)) &&
+              out_eqb (to_denied c0) (to_denied c)) l = true) as Hex.
+    { apply existsb_exists. exists c. rewrite Hc, to_denied_eqb. auto. }
+    rewrite Hex. reflexivity.
+  - exact Hb.
+Qed.
+
+Lemma step_p l o : wf l = true -> valid_op o ->
+  p_step l (fst (step l o)) o (snd (step l o)) = ""%string.
+Proof.
+  intros Hwf Hv.
+  destruct o as [ow ex s e|ow s e|ow ex s e|ow t s e|ow ex off len|ow off len|ow ex off len|ow];
+  cbn in Hv.
+  - apply (step_base_p l (OLock ow ex s e)); auto.
+  - apply (step_base_p l (OUnlock ow s e)); auto.
+  - apply (step_base_p l (OTest ow ex s e)); auto.
+  - apply (step_base_p l (ORawSet ow t s e)); auto.
+  - destruct Hv as (H1 & H2 & H3). cbn [step p_step].
+    destruct (olse_valid off len H1 H2 H3) as [E|(s & e & E & Hlt & _)].
+    + rewrite E. cbn [fst snd]. unfold p_nfs. rewrite E. cbn. unfold unchanged.
+      now rewrite list_eqb_refl.
+    + rewrite E, fst_let, snd_let. apply p_nfs_lock_test with (ow := ow) (ex := ex); auto.
+  - destruct Hv as (H1 & H2 & H3). cbn [step p_step].
+    destruct (olse_valid off len H1 H2 H3) as [E|(s & e & E & Hlt & _)].
+    + rewrite E. cbn [fst snd]. unfold p_nfs. rewrite E. cbn. unfold unchanged.
+      now rewrite list_eqb_refl.
+    + rewrite E. unfold p_nfs. rewrite E. assert ((e <=? s) = false) as -> by lia.
+      pose proof (step_base_p l (OUnlock ow s e) Hwf Hlt) as Hb. cbn [step_base fst snd] in *.
+      rewrite set_no_panic in * by auto. exact Hb.
+  - destruct Hv as (H1 & H2 & H3). cbn [step p_step].
+    destruct (olse_valid off len H1 H2 H3) as [E|(s & e & E & Hlt & _)].
+    + rewrite E. cbn [fst snd]. unfold p_nfs. rewrite E. cbn. unfold unchanged.
+      now rewrite list_eqb_refl.
+    + rewrite E, fst_let, snd_let. apply p_nfs_lock_test with (ow := ow) (ex := ex); auto.
+  - cbn [step p_step]. apply (step_base_p l (OUnlock ow 0 max_u64)); auto. cbn. unfold max_u64. lia.
+Qed.
+
 Lemma trace_ok_from ops : forall l, wf l = true -> valid_ops ops -> trace_ok l ops = true.
 Proof.
   induction ops as [|o tl IH]; intros l Hwf Hv; [reflexivity|].
@@ -267,44 +440,6 @@ Qed.
 Theorem trace_ok_all ops : valid_ops ops -> trace_ok [] ops = true.
 Proof. intros. apply trace_ok_from; auto. Qed.
 
-(* ---- offsetLengthToStartEnd ---------------------------------------------- *)
-
-Lemma olse_spec off len : off <= max_u64 -> len <= max_u64 ->
-  offset_length_to_start_end off len =
-  if len =? 0 then None
-  else if len =? max_u64 then Some (off, max_u64)
-  else if off + len <=? max_u64 then Some (off, off + len) else None.
-Proof.
-  intros H1 H2. unfold offset_length_to_start_end.
-  destruct (len =? 0); auto. destruct (len =? max_u64); auto.
-  destruct (max_u64 - off <? len) eqn:E1; destruct (off + len <=? max_u64) eqn:E2; auto; lia.
-Qed.
-
-Lemma olse_range off len s e : off <= max_u64 -> len <= max_u64 ->
-  offset_length_to_start_end off len = Some (s, e) ->
-  s = off /\ s <= e /\ e <= max_u64 /\ (s < e \/ (off = max_u64 /\ len = max_u64)).
-Proof.
-  intros H1 H2. unfold offset_length_to_start_end.
-  destruct (len =? 0) eqn:E0; [discriminate|].
-  destruct (len =? max_u64) eqn:E1.
-  - intros [= <- <-]. lia.
-  - destruct (max_u64 - off <? len) eqn:E2; [discriminate|]. intros [= <- <-]. lia.
-Qed.
-
-Lemma olse_nonempty off len s e : off < max_u64 -> len <= max_u64 ->
-  offset_length_to_start_end off len = Some (s, e) -> s < e.
-Proof.
-  intros H1 H2 H. apply olse_range in H; lia.
-Qed.
-
-(* The unrestricted statement is false: offset = length = 2^64-1 ("from the
-   last offset to end of file") is accepted and yields the empty range. *)
-Lemma olse_nonempty_refuted :
-  exists off len s e, off <= max_u64 /\ len <= max_u64 /\
-    offset_length_to_start_end off len = Some (s, e) /\ ~ s < e.
-Proof.
-  exists max_u64, max_u64, max_u64, max_u64. vm_compute. repeat split; congruence.
-Qed.
 
 
 (* ---- Test, per byte ------------------------------------------------------ *)
@@ -347,14 +482,14 @@ Qed.
 Lemma lockt_iff_lock l ow ex s e c :
   snd (step l (OTest ow ex s e)) = Denied c <-> snd (step l (OLock ow ex s e)) = Denied c.
 Proof.
-  cbn [step]. destruct (test l _) as [d|]; cbn [snd]; [tauto|].
+  cbn [step step_base]. destruct (test l _) as [d|]; cbn [snd]; [tauto|].
   destruct (set_panic _); split; discriminate.
 Qed.
 
 Lemma lockt_ok_iff_lock l ow ex s e : wf l = true -> s < e ->
   (snd (step l (OTest ow ex s e)) = TestOk <-> exists d, snd (step l (OLock ow ex s e)) = Granted d).
 Proof.
-  intros Hwf Hne. cbn [step]. destruct (test l _) as [d|]; cbn [snd].
+  intros Hwf Hne. cbn [step step_base]. destruct (test l _) as [d|]; cbn [snd].
   - split; [discriminate|intros [? ?]; discriminate].
   - rewrite set_no_panic by auto. split; eauto.
 Qed.
@@ -364,7 +499,7 @@ Lemma unlock_bytes l ow s e o b : wf l = true -> s < e ->
   kind_at (fst (step l (OUnlock ow s e))) o b =
   if (o =? ow) && (s <=? b) && (b <? e) then None else kind_at l o b.
 Proof.
-  intros Hwf Hne. cbn [step fst]. rewrite set_bytes by auto.
+  intros Hwf Hne. cbn [step step_base fst]. rewrite set_bytes by auto.
   unfold expected_kind, covers. cbn [lowner lstart lend ltyp kreq].
   rewrite (N.eqb_sym ow o). reflexivity.
 Qed.
@@ -375,7 +510,7 @@ Lemma lock_bytes l ow ex s e d o b : wf l = true -> s < e ->
   kind_at (fst (step l (OLock ow ex s e))) o b =
   if (o =? ow) && (s <=? b) && (b <? e) then Some (ty_of ex) else kind_at l o b.
 Proof.
-  intros Hwf Hne. cbn [step]. destruct (test l _); cbn [fst snd]; [discriminate|]. intros _.
+  intros Hwf Hne. cbn [step step_base]. destruct (test l _); cbn [fst snd]; [discriminate|]. intros _.
   rewrite set_bytes by auto.
   unfold expected_kind, covers. cbn [lowner lstart lend ltyp].
   rewrite (N.eqb_sym ow o). destruct ex; reflexivity.
@@ -392,4 +527,22 @@ Definition demo_ops : list op :=
     OUnlock 1 4 5;               (* splits the exclusive part *)
     OLock 1 false 3 6;           (* merges everything back: delta -3 *)
     OLock 3 true 12 18446744073709551615;   (* up to the maximum offset *)
-    OUnlock 2 1 2 ].             (* splits owner 2's lock *)
+    OUnlock 2 1 2;               (* splits owner 2's lock *)
+    ONfsLock 4 true 20 5;        (* through OpenedFile: denied by owner 3 *)
+    ONfsTest 4 false 5 0;        (* length 0: NFS4ERR_INVAL *)
+    ONfsLock 4 false 18446744073709551614 18446744073709551615;  (* to EOF: denied *)
+    OUnlockAll 3;
+    ONfsLock 4 false 18446744073709551614 18446744073709551615 ].
+
+(* ---- the one accepted (offset, length) pair that denotes no byte ------- *)
+
+(* offset = length = 2^64-1 passes offsetLengthToStartEnd and reaches Set()
+   as the empty range [2^64-1, 2^64-1): the monitor (and [wf]) fail on the
+   model, which is faithful to the code here. *)
+Definition empty_range_ops : list op :=
+  [ ONfsLock 1 true max_u64 max_u64; ONfsLock 2 true max_u64 max_u64 ].
+
+Lemma trace_ok_refuted_without_valid :
+  exists ops, trace_ok [] ops = false /\
+    snd (run [] ops) = [Granted 1; Granted 1] /\ wf (state_after ops) = false.
+Proof. exists empty_range_ops. vm_compute. auto. Qed.
